@@ -49,14 +49,18 @@ Inductive case :=
 | CExists (title : list N) (lits : option (list (list term))) (found : bool)
 (* the real bulk processor on a document (given as the tree insaneJSON decodes it to) with mapping m
    and tokenizer configuration c returned these metas (token lists, parent first) *)
-| CDoc (m : mapping) (c : icfg) (doc : jval) (metas : list (list token)).
+| CDoc (m : mapping) (c : icfg) (doc : jval) (metas : list (list token))
+(* a case of the input class of the known finding cs-invalid-utf8 (case-sensitive, keyword/path value or
+   cut prefix not valid UTF-8) on which the driver saw the finding (query not found) and reported it
+   itself under that fingerprint: the model must still agree; the spec verdict is not asked again *)
+| CKnown (inner : case).
 
 Definition q_str (q : qobs) := fst (fst q).
 Definition q_lits (q : qobs) := snd (fst q).
 Definition q_found (q : qobs) := snd q.
 
 (* model output = implementation output *)
-Definition case_agrees (c : case) : bool :=
+Fixpoint case_agrees (c : case) : bool :=
   match c with
   | CFind legacy t c fmax v toks qs =>
       list_eqb bytes_eqb (m_tokenize t c fmax v) toks
@@ -72,6 +76,40 @@ Definition case_agrees (c : case) : bool :=
       option_eqb lits_eqb (m_query TyKeyword true title) lits
       && match lits with Some ls => implb (query_finds ls [title]) found | None => negb found end
   | CDoc m c doc metas => list_eqb (list_eqb token_eqb) (m_doc_metas m c doc) metas
+  | CKnown inner => case_agrees inner
+  end.
+
+(* the fields of a document as the property describes them (executable form of [reach]): into objects, tag
+   arrays and nested arrays, names joined by dots *)
+Definition K_key : list N := [107; 101; 121].
+Definition K_value : list N := [118; 97; 108; 117; 101].
+Fixpoint reach_list (m : mapping) (name : list N) (n : jval) {struct n} : list (list N * option (list N)) :=
+  match n with
+  | JObj fs _ =>
+    (fix go (fs : list (list N * jval)) : list (list N * option (list N)) :=
+       match fs with
+       | [] => []
+       | (k, v) :: r =>
+         let fname := join name k in
+         (match fst (mlookup m fname), v with
+          | TyNoop, _ => []
+          | TyObject, JObj _ _ => reach_list m fname v
+          | TyTags, JArr els _ =>
+            flat_map (fun el => match el with
+                                | JObj tfs _ =>
+                                  match dig tfs K_key with
+                                  | Some kn => [(fname ++ Dot :: jbytes kn,
+                                                 match dig tfs K_value with Some x => jvalue x | None => None end)]
+                                  | None => []
+                                  end
+                                | _ => [] end) els
+          | TyNested, JArr els _ =>
+            (fix each (els : list jval) : list (list N * option (list N)) :=
+               match els with [] => [] | e :: er => reach_list m fname e ++ each er end) els
+          | _, _ => [(fname, jvalue v)]
+          end) ++ go r
+       end) fs
+  | _ => []
   end.
 
 (* implementation output satisfies the property (independent of the model's tokenizers):
@@ -104,7 +142,16 @@ Definition case_spec_ok (c : case) : bool :=
                       bytes_eqb (fst t) K_ALL || bytes_eqb (fst t) K_EXISTS
                       || existsb (token_eqb (K_EXISTS, fst t)) mt) mt) metas
         && forallb (fun mt => forallb (fun t => existsb (token_eqb t) mt) (tl parent)) nested
+        (* every field the document has, every title of its mapping entry with a tokenizer: `_exists_:title`
+           is in some meta *)
+        && forallb (fun fx : list N * option (list N) =>
+             forallb (fun mt : mtype =>
+               let '(title, ty, _) := mt in
+               negb (has_tokenizer ty)
+               || existsb (fun meta => existsb (token_eqb (K_EXISTS, title_of title (fst fx))) meta) metas)
+               (snd (mlookup m (fst fx)))) (reach_list m [] doc)
       end
+  | CKnown _ => true
   end.
 
 Definition diff_indices (l : list case) : list nat := bad_indices (fun c => negb (case_agrees c)) l.
